@@ -14,7 +14,7 @@ from . import c06
 
 ID = 'C18'
 LEVEL = 'exploration'
-RUNS = {'quick': 1500}
+RUNS = {'quick': 3600}
 BUDGET_S = {'thorough': 600}
 TIMEOUT_IS_VIOLATION = True
 RUN_LIMIT_S = 40
